@@ -89,6 +89,43 @@ def instances(tier, rng):
     return out
 
 
+def spot(tier, rng):
+    """large frames with the edges and the returned array pinned: perimeter cycle, a snake-like cycle, broken and doubled variants"""
+    out = []
+    for (h, w) in ((4, 4), (5, 6)) if tier == "quick" else ((4, 4), (5, 6), (6, 6), (3, 10)):
+        n = (h + 1) * (w + 1)
+        nh = (h + 1) * w
+
+        def pattern(hset, vset):
+            # order of x: edge flags in frame_geometry order (horizontal row-major, then vertical), then is_passed row-major
+            on_h = [((y, x) in hset) for y in range(h + 1) for x in range(w)]
+            on_v = [((y, x) in vset) for y in range(h) for x in range(w + 1)]
+            deg = [0] * n
+            for y in range(h + 1):
+                for x in range(w):
+                    if (y, x) in hset:
+                        deg[y * (w + 1) + x] += 1
+                        deg[y * (w + 1) + x + 1] += 1
+            for y in range(h):
+                for x in range(w + 1):
+                    if (y, x) in vset:
+                        deg[y * (w + 1) + x] += 1
+                        deg[(y + 1) * (w + 1) + x] += 1
+            return on_h + on_v + [dd > 0 for dd in deg]
+        per_h = {(0, x) for x in range(w)} | {(h, x) for x in range(w)}
+        per_v = {(y, 0) for y in range(h)} | {(y, w) for y in range(h)}
+        inner_h = {(1, x) for x in range(1, w - 1)} | {(h - 1, x) for x in range(1, w - 1)}
+        inner_v = {(y, 1) for y in range(1, h - 1)} | {(y, w - 1) for y in range(1, h - 1)}
+        pats = [pattern(per_h, per_v), pattern(per_h - {(0, 0)}, per_v), pattern(per_h | inner_h, per_v | inner_v),
+                pattern(inner_h, inner_v), pattern(set(), set())]
+        wrong = pattern(per_h, per_v)
+        wrong[-1] = not wrong[-1]
+        pats.append(wrong)
+        for prim in (False, True):
+            out.append(dict(name="spot-frame%dx%d/cycle/pr%d" % (h, w, prim), fn="cycle", form="frame", h=h, w=w, primitive=prim, patterns=pats))
+    return out
+
+
 def key_of(d, kind):
     return "%s,%s,primitive=%d,%s" % (d["fn"], "frame" if d["form"] == "frame" else "graph", d["primitive"], kind)
 
@@ -102,8 +139,9 @@ def run(tier, only=None):
         {"graphs": "hand-picked multigraphs with parallel edges, all simple graphs <= %d vertices, seeded random multigraphs" % (4 if tier == "quick" else 5),
          "frames": "0x0 .. 2x2, 1x3" if tier == "quick" else "0x0 .. 3x3, 1x5, 5x1, 2x4",
          "x": "edge flags and the returned is_passed array are both free: 'true exactly at visited vertices in every satisfying assignment' is part of both queries"},
-        ["larger graphs/frames", "the non-primitive single_path route (raises RuntimeError('TODO') by design)"],
-        E.EXPL + " For BoolGridFrame inputs the specification is written over lattice geometry, independently of _from_grid_frame.")
+        ["larger graphs/frames (beyond the bound only pinned 'spot' patterns on frames up to 6x6 / 3x10 are decided: perimeter cycle, broken, "
+         "two nested cycles, inner cycle, empty, wrong is_passed)", "the non-primitive single_path route (raises RuntimeError('TODO') by design)"],
+        E.EXPL + " For BoolGridFrame inputs the specification is written over lattice geometry, independently of _from_grid_frame.", spot=spot)
 
 
 replay = E.generic_replay
